@@ -84,6 +84,15 @@ HistAppendOK(h, e) ==
     /\ (Len(h) > 0 =>
           LET p == h[Len(h)].ts IN p.ms < e.ts.ms \/ (p.ms = e.ts.ms /\ p.us <= e.ts.us))
 
+(* "every state that is entered logs StateEntered ... and StateExited": an exit event is preceded by an entry of the *)
+(* same state (same type and name) that no earlier exit has used up                                                   *)
+StateTypeNames == {"Pass", "Task", "Choice", "Wait", "Succeed", "Fail", "Parallel", "Map"}
+ExitFollowsEnter(h, e) ==
+    \A t \in StateTypeNames :
+        e.type = t \o "StateExited" =>
+            Cardinality({i \in 1..Len(h) : h[i].type = t \o "StateEntered" /\ h[i].name = e.name})
+              > Cardinality({i \in 1..Len(h) : h[i].type = t \o "StateExited" /\ h[i].name = e.name})
+
 NothingAfterTerminal(h) ==
     \A i \in 1..Len(h) : h[i].type \in HistTerminalTypes => i = Len(h)
 
